@@ -68,9 +68,9 @@ def shape(pd, comp, xi, eta, dx, dy, a=None, b=None):
     return out.reshape(xi.size, eta.size, pd.n * pd.m)
 
 
-def _place(pd, blocks):
+def _place(pd, blocks, PQ=None):
     """blocks: dict comp -> (P,Q,nm) -> full (P,Q,ndof) array with compmech's dof interleaving."""
-    P, Q = next(iter(blocks.values())).shape[:2]
+    P, Q = next(iter(blocks.values())).shape[:2] if blocks else PQ
     out = np.zeros((P, Q, pd.ndof))
     if pd.num == 1:
         if 2 in blocks:
@@ -102,7 +102,7 @@ def operators(pd, xi, eta, r=None, b=None, sina=0., cosa=1.):
 
     rows = []
     # exx
-    rows.append(_place(pd, {0: g(0, 1, 0)} if pd.num == 3 else {}))
+    rows.append(_place(pd, {0: g(0, 1, 0)} if pd.num == 3 else {}, (P, Q)))
     # eyy
     blk = {}
     if pd.num == 3:
@@ -111,13 +111,13 @@ def operators(pd, xi, eta, r=None, b=None, sina=0., cosa=1.):
             blk[2] = (cosa / r) * g(2, 0, 0)
             if sina != 0.:
                 blk[0] = (sina / r) * g(0, 0, 0)
-    rows.append(_place(pd, blk))
+    rows.append(_place(pd, blk, (P, Q)))
     # gxy
     blk = {}
     if pd.num == 3:
         blk[0] = g(0, 0, 1)
         blk[1] = g(1, 1, 0) - ((sina / r) * g(1, 0, 0) if (r is not None and sina != 0.) else 0.)
-    rows.append(_place(pd, blk))
+    rows.append(_place(pd, blk, (P, Q)))
     # kxx
     rows.append(_place(pd, {2: -g(2, 2, 0)}))
     # kyy
